@@ -465,10 +465,14 @@ int64_t cmi_pool_acquire_inner(struct cmb_resourcepool *rpp,
                 /*
                  * Schedule a wakeup for it, but do not switch context yet. Cancel
                  * whatever else it is waiting for first, so that the preemption
-                 * is the next thing it gets to know about.
+                 * is the next thing it gets to know about. The notice goes
+                 * ahead of anything entered later for this instant: an
+                 * interrupt of higher priority would otherwise run first and
+                 * cancel the notice along with the other pending wakeups,
+                 * leaving the victim to go on as if it still held its units.
                  */
                 cmi_process_cancel_awaiteds(victim);
-                cmb_process_interrupt(victim, CMB_PROCESS_PREEMPTED, victim->priority);
+                cmb_process_interrupt(victim, CMB_PROCESS_PREEMPTED, INT64_MAX);
 
                  /* Split the loot */
                 if (loot < rem_claim) {
